@@ -29,6 +29,10 @@ fn producers_variants() -> Vec<(&'static str, Option<Vec<(&'static str, Vec<(&'s
         ("old-walrus", Some(vec![("processed-by", vec![("clang", "15"), ("walrus", "0.1.0"), ("zz", "9")])])),
         ("two-fields", Some(vec![("language", vec![("Rust", ""), ("C", "11")]), ("sdk", vec![("emscripten", "3")])])),
         ("walrus-only-current", Some(vec![("processed-by", vec![("walrus", "0.23.3")])])),
+        // fields without values (valid; wat's @producers cannot write them)
+        ("empty-field-in-the-middle", Some(vec![("language", vec![("Rust", "")]), ("sdk", vec![]), ("processed-by", vec![("rustc", "1"), ("clang", "2")])])),
+        ("only-an-empty-field", Some(vec![("sdk", vec![])])),
+        ("empty-processed-by", Some(vec![("language", vec![]), ("processed-by", vec![])])),
     ]
 }
 
